@@ -3,22 +3,22 @@
 # T1: which regenerated facts each property's argument rests on (see extract/main.go, lean/JivaVerif/Tie.lean)
 FACTS_FOR = {
     "C01": ["ioRefusedWriteAt", "ioRefusedReadAt", "lookupBody", "removeIndexShifts", "removeIndexBody"],
-    "C02": ["mwWriteOk", "mwSyncOk", "mwUnmapOk", "mwWriteReturns", "handleErrorNoLock", "errorAttributionWriteAt",
+    "C02": ["locks_WriteAt", "locks_Sync", "locks_Unmap", "mwWriteOk", "mwSyncOk", "mwUnmapOk", "mwWriteReturns", "handleErrorNoLock", "errorAttributionWriteAt",
             "errorAttributionSync", "errorAttributionUnmap", "buildReadWriters", "removeBackendTail", "removeReplicaTail"],
-    "C03": ["volStatusRW", "volStatusCounts", "setModeReevaluates", "removeReplicaTail"],
-    "C04": ["buildReadWriters", "errorAttributionReadAt", "handleErrorNoLock", "startLoops", "startOneOrder"],
-    "C05": ["mwWriteOk", "mwSyncOk", "mwUnmapOk", "handleErrorNoLock", "errorAttributionWriteAt", "errorAttributionSync",
+    "C03": ["locks_WriteAt", "locks_Sync", "locks_Unmap", "locks_SetReplicaMode", "locks_RemoveReplica", "locks_monitoring", "volStatusRW", "volStatusCounts", "setModeReevaluates", "removeReplicaTail"],
+    "C04": ["locks_ReadAt", "buildReadWriters", "errorAttributionReadAt", "handleErrorNoLock", "startLoops", "startOneOrder"],
+    "C05": ["locks_WriteAt", "locks_ReadAt", "locks_monitoring", "mwWriteOk", "mwSyncOk", "mwUnmapOk", "handleErrorNoLock", "errorAttributionWriteAt", "errorAttributionSync",
             "errorAttributionUnmap", "errorAttributionReadAt", "removeBackendTail", "removeReplicaTail"],
     "C06": ["fullWritePunch", "preloadPunch", "removeIndexSnapIndx", "lookupBody"],
-    "C07": ["verifyOrder", "verifyChainGuard", "verifySlices", "canAdd", "addReplicaNoLockRechecks", "addReplicaOrder", "writeWidensForWO", "widenForWO"],
-    "C09": ["canSignal", "electionLoop", "electionInit", "electionSkipsRebuildingRegistrant", "startLoops", "startOneOrder"],
+    "C07": ["locks_VerifyRebuildReplica", "locks_addReplica", "verifyOrder", "verifyChainGuard", "verifySlices", "canAdd", "addReplicaNoLockRechecks", "addReplicaOrder", "writeWidensForWO", "widenForWO"],
+    "C09": ["locks_RegisterReplica", "locks_Start", "canSignal", "electionLoop", "electionInit", "electionSkipsRebuildingRegistrant", "startLoops", "startOneOrder"],
     "C10": ["replicaWriteCounter", "increaseRevisionCounter", "getRevisionCounter", "guard_Replica_SetRevisionCounter", "verifyOrder"],
     "C11": ["cleanerConds", "cleanerSlices", "removeIndexShifts", "removeIndexBody", "removeIndexSnapIndx",
             "guard_Replica_PrepareRemoveDisk", "guard_Replica_RemoveDiffDisk"],
     "C12": ["createDiskDupGuard", "chainTooLong", "liveChainTooLong", "guard_Replica_RemoveDiffDisk", "guard_Replica_PrepareRemoveDisk"],
-    "C13": ["snapshotRefusal", "checkpointCond", "checkpointBody", "removeReplicaTail"],
+    "C13": ["locks_Snapshot", "locks_RemoveReplica", "locks_Revert", "snapshotRefusal", "checkpointCond", "checkpointBody", "removeReplicaTail"],
     "C14": ["actionsGated", "checkAction", "replicaActions", "routedActions", "verifyChainGuard", "verifySlices"],
-    "C16": ["guard_Replica_Resize", "guard_Server_Resize"],
+    "C16": ["locks_Resize", "guard_Replica_Resize", "guard_Server_Resize"],
     "C17": ["replicaWriteModeBeforeData", "replicaActions", "routedActions", "actionsGated", "checkAction",
             "guard_Replica_RemoveDiffDisk", "guard_Replica_ReplaceDisk", "guard_Replica_PrepareRemoveDisk",
             "guard_Replica_SetRevisionCounter", "guard_Replica_WriteAt", "guard_Server_Open", "guard_Server_WriteAt",
@@ -27,7 +27,7 @@ FACTS_FOR = {
             "guard_Server_SetReplicaMode", "guard_Server_SetRevisionCounter", "guard_Server_SetCheckpoint", "guard_Server_Reload"],
     "C08": ["createDiskVolMetaFailure", "revertDiskVolMetaFailure"],
     "C19": ["startOneOrder", "cloneReplicaOrder", "appCloneOrder", "cloneStatusOrder", "cloneStatusLoop", "updateCloneInfo"],
-    "C18": ["startOverRF", "startGuardBeforeReset", "startLoops", "buildReadWriters", "removeBackendTail", "canAdd", "addReplicaNoLockRechecks", "addReplicaOrder", "removeReplicaTail", "volStatusCounts"],
+    "C18": ["locks_addReplica", "locks_RemoveReplica", "locks_SetReplicaMode", "locks_Start", "startOverRF", "startGuardBeforeReset", "startLoops", "buildReadWriters", "removeBackendTail", "canAdd", "addReplicaNoLockRechecks", "addReplicaOrder", "removeReplicaTail", "volStatusCounts"],
 }
 
 ENGINES = ["replicadiff", "ctldiff", "rpcdiff", "restdiff", "crashdiff"]
@@ -132,6 +132,7 @@ PROPS = {
             "modelled": ["modelled: the client loop is one goroutine; its events (request taken from the queue, frame read, transport error) are the model's steps; sequence numbers do not wrap (fewer than 2^32 requests per connection)",
                          "partial: that select/time.After fire, channel-capacity blocking (responses, closeChan), the unsynchronised read of Client.err in operation(), and requests queued at the moment the loop exits (they fail at their own deadline) are runtime behaviour outside the event model; the harness observes prompt failure with shortened deadlines (rpc/verif_hooks.go)",
                          "harness: real rpc.Wire on an in-memory conn; real rpc.Client over loopback TCP against a scripted peer"]},
-    "C16": {"lean": ["JivaVerif.Properties.C16"],
-            "runs": [rep("resize", 480, 30, 6000, 45, 5)], "modelled": FS},
+    "C16": {"lean": ["JivaVerif.Properties.C16", "JivaVerif.Properties.Controller"], "prefixes": ["c16_", "ctl_reachable_inv"],
+            "runs": [rep("resize", 480, 30, 6000, 45, 5), ctl("membership", 240, 30, 4000, 40, 19)],
+            "modelled": FS + ["controller half: Controller.Resize (refusal of a size that is not larger; the fan-out to every replica that is not marked failed, the rebuilding one included — c16_ctl_grow_reaches_all; the error path) is the controller model's stepResize, tied by ctldiff"]},
 }
